@@ -55,8 +55,10 @@ def check_dump(I, out, n, expected_items, what):
 
 
 def sym_cap(I, lo=64, hi=256):
+    """symbolic initial capacity: every multiple of 8 in [lo, min(hi, CAPMAX)], plus hi itself when hi is the 'certainly large enough' value 512"""
     cap = I.named('cap', 32); t = I.term(cap, 32)
-    I.assume(z3.And(z3.UGE(t, lo), z3.ULE(t, hi), z3.URem(t, 8) == 0))
+    rng = z3.And(z3.UGE(t, lo), z3.ULE(t, min(hi, CAPMAX)), z3.URem(t, 8) == 0)
+    I.assume(z3.Or(rng, t == hi) if hi == 512 else rng)
     return cap
 
 
@@ -97,6 +99,7 @@ def finish(I, rc, mode, out, ol, what, expected, big_enough):
 
 
 OUTCAP = 1536
+CAPMAX = 160
 MAXU = 20
 
 
@@ -151,7 +154,7 @@ def h_changeset(I, job):
     cid = I.named('cid', 32)
     out = I.new_obj(OUTCAP, 'out', 'heap'); ol = I.new_obj(4, 'ol', 'heap')
     rc = I.concretize(I.call('@verif_changeset', [cap, mode, cid, user, ul, nc, cuser, text, ntags, k, v, out, OUTCAP, ol]), 'rc')
-    e = [w64(4), w64(I.zext(cid, 32, 64)), w64(100), w64(200), w64(5)] + estr(ub) + [w64(8), w64(nc), w64(0x7fffffff), w64(0x7fffffff)] + etags([(b'c', b'd')] * ntags) + [w64(nc)]
+    e = [w64(5), w64(I.zext(cid, 32, 64)), w64(100), w64(200), w64(5)] + estr(ub) + [w64(8), w64(nc), w64(0x7fffffff), w64(0x7fffffff)] + etags([(b'c', b'd')] * ntags) + [w64(nc)]
     for j in range(nc): e += [w64(50 + j), w64(30 + j)] + estr(cub) + estr(b'some text')
     finish(I, rc, mode, out, ol, 'changeset', [e], I.concretize(cap, 'cap') >= 512)
 
@@ -216,13 +219,15 @@ def gen(names64=(), lens=(), caps=(64, 72, 96, 128, 200), extra=None):
 
 
 def harnesses(tier):
+    global CAPMAX
     q = tier == 'quick'
+    CAPMAX = 160 if q else 256
     modes = (0, 1, 2)
     MN = {0: 'no', 1: 'yes', 2: 'internal'}
     hs = []
     hs.append(Harness('nodes', 'builders', h_nodes, jobs=[dict(mode=m, count=c, ntags=t) for m in modes for (c, t) in ((1, 2), (3, 1))], reach=('end',),
                       desc='1 and 3 nodes with user and tags built in a buffer of symbolic capacity: dump through the iterators == what was passed in, for auto_grow no/yes/internal (nested buffers oldest first)',
-                      bounds='capacity 64..200 step 8 (..512 for auto_grow::no), user length 0..%d, ids symbolic 64-bit' % MAXU, testgen=gen(['id0', 'id1', 'id2'], [('ulen', MAXU)]), sanitize=True))
+                      bounds='capacity 64..160 (quick) / 256 (thorough) step 8 (plus 512 for auto_grow::no), user length 0..%d, ids symbolic 64-bit' % MAXU, testgen=gen(['id0', 'id1', 'id2'], [('ulen', MAXU)]), sanitize=True))
     hs.append(Harness('way', 'builders', h_way, jobs=[dict(mode=m, nrefs=n, ntags=t) for m in modes for (n, t) in ((3, 1), (0, 0))],
                       desc='way with node list and tags', bounds='capacity 64..200/512, user length 0..%d, 3 refs' % MAXU, testgen=gen(['wid', 'ref0', 'ref1', 'ref2'], [('ulen', MAXU)]), sanitize=True))
     hs.append(Harness('relation', 'builders', h_relation, jobs=[dict(mode=m, nmem=3, full=f, ntags=1) for m in modes for f in (9, 1)],
